@@ -988,6 +988,9 @@ class Interp:
     def contains(self, container, x):
         if isinstance(container, (SOpt, SChoice)):
             container = self.resolve(container)
+        from .pdict import PDict
+        if isinstance(container, PDict):
+            return container.contains(self, x)
         if isinstance(container, (SStr, str)) and isinstance(x, (SStr, str)) and \
                 (isinstance(container, SStr) or isinstance(x, SStr)):
             from . import strings
@@ -1245,6 +1248,9 @@ class Interp:
             obj = self.resolve(obj)
         if isinstance(idx, (SOpt, SChoice)):
             idx = self.resolve(idx)
+        from .pdict import PDict
+        if isinstance(obj, PDict):
+            return obj.getitem(self, idx)
         if isinstance(obj, (SStr, SList)) or (isinstance(obj, str) and _slice_sym(idx)):
             return models.sym_getitem(self, obj, idx)
         if isinstance(obj, Opaque):
@@ -1262,6 +1268,15 @@ class Interp:
         if isinstance(obj, dict) or type(obj).__name__ == 'mappingproxy':
             if isinstance(idx, SBool):
                 idx = self.st.fork(idx)
+            if isinstance(idx, SStr) and all(isinstance(k, str) for k in obj.keys()):
+                # lookup with a symbolic string in a dictionary with concrete keys: case split over the keys
+                keys = list(obj.keys())
+                conds = [idx.t == z3.StringVal(k) for k in keys]
+                conds.append(z3.And(*[z3.Not(c) for c in conds]) if conds else z3.BoolVal(True))
+                i = self.st.choose(len(conds), conds)
+                if i == len(keys):
+                    raise PyRaise(KeyError('<symbolic>'))
+                return obj[keys[i]]
             if isinstance(idx, Sym):
                 raise Unsupported('symbolic dict key')
             try:
@@ -1615,6 +1630,9 @@ class Interp:
         if isinstance(obj, Opaque):
             return self.reg.call_opaque(self, obj, '__setitem__', [idx, value], {})
         from . import models
+        from .pdict import PDict
+        if isinstance(obj, PDict):
+            return obj.setitem(self, idx, value)
         if self.loop_guards:
             self.note_heap_write(obj, None)
         if isinstance(obj, models.SMap):
